@@ -61,6 +61,10 @@ pub struct SemOpts {
   pub cutoff: Option<i64>,
   pub exclude_pkgs: Vec<String>,
   pub exclude_prefixes: Vec<String>,
+  /// roots built (fault-free, baseline schedule) before the operation under
+  /// test, so that it runs on a non-empty graph
+  #[serde(default)]
+  pub prelude_roots: Vec<String>,
 }
 
 impl Default for SemOpts {
@@ -80,6 +84,7 @@ impl Default for SemOpts {
       cutoff: None,
       exclude_pkgs: vec![],
       exclude_prefixes: vec![],
+      prelude_roots: vec![],
     }
   }
 }
@@ -111,6 +116,7 @@ impl SemOpts {
       cutoff: None,
       exclude_pkgs: vec![],
       exclude_prefixes: vec![],
+      prelude_roots: vec![],
     }
   }
 }
